@@ -354,9 +354,14 @@ PropCombine ==
           Apply("assign_combination_body:" \o a, 1,
                 WP(<<T("var", VarAt(Here)), T("agg", a), P("(")>> \o ExprAny
                    \o <<P(":-")>> \o Body \o <<P(")")>>))
+     \* The value extends to the end of the conjunct; docs/syntax.md does not
+     \* say whether `y Max= 7 || 0` is `y Max= (7 || 0)` or `(y Max= 7) || 0`
+     \* (the parsers read the latter and reject it), so parentheses around
+     \* the whole value are not licensed as redundant here.
      \/ \E a \in AggOps :
           Apply("assign_combination:" \o a, 1,
-                WP(<<T("var", VarAt(Here)), T("agg", a)>> \o ExprAny))
+                WP(<<T("var", VarAt(Here)), T("agg", a)>> \o
+                   Wrap("expr", FALSE, <<NM("Expr", "any")>>)))
      \* "If combine has a body then it must be enclosed in parenthesis"; as
      \* the sole argument of a call both parsers reject it with the
      \* diagnostic "place it in auxiliary variable first", so the
